@@ -55,7 +55,8 @@ for f in sorted(glob.glob(f'/verif/replays/{prop}-*.json')):
     mn=parts[2] if len(parts)>2 else ''
     c=d['case']
     ex=c.get('il_bytes') or c.get('bytes') or c.get('word') or ''
-    root=ROOT.get(mn.split()[-1], 'disagrees with the host CPU')
+    root=ROOT.get(mn.split()[-1], 'disagrees with the reference')
+    if mn.startswith('SUBS'): root='AArch64 SUBS/CMP compute C as the borrow; the architecture defines C = NOT borrow (carry of x + NOT(y) + 1). The repository test aarch64::test::subs_xn pins the current value, so this cannot be repaired without editing the suite'
     k['findings'].append({"property":prop,"key":d['key'],"what":f"{mn}: {root}; e.g. bytes {ex}: {d['what'][:160]}"})
     n+=1
 json.dump(k,open(p,'w'),indent=1)
